@@ -24,7 +24,32 @@ def wrap(x):
     return (x + math.pi) % (2 * math.pi) - math.pi
 
 
-if "rotate_dihedral" in label or "dihedral" in label:
+if "optimal_rotation_to_ref_coords" in label or "align_to_ref_coords" in label:
+    ens = ml.ConformerEnsemble.load_mol2(ml.files.pentane_confs_mol2)
+    nconf = ens.n_conformers
+    for trial in range(20):
+        script = rng.uniform(0.05, 5.0, size=(nconf, 2))
+        calls = []
+
+        def func(a, b):
+            n = len(calls)
+            calls.append(n)
+            return np.eye(3) * (n + 1), float(script[n // 2][n % 2])
+        ref = ml.Molecule(ens[0]).substructure([0, 1])
+        rmsds, rots = ens.optimal_rotation_to_ref_coords(func, [[0, 1], [1, 2]], ref)
+        want = script.min(axis=1)
+        if len(rmsds) != nconf or not np.allclose(rmsds, want):
+            k = int(np.argmax(~np.isclose(rmsds, want))) if len(rmsds) == nconf else -1
+            bad.append(f"conformer {k}: fits {script[k].tolist() if k >= 0 else None} but reported rmsd {rmsds[k] if k >= 0 else rmsds}")
+            break
+        for c in range(nconf):
+            best = 2 * c + int(np.argmin(script[c]))
+            if not np.allclose(rots[c], np.eye(3) * (best + 1)):
+                bad.append(f"conformer {c}: the returned rotation is not the one of its best fit")
+                break
+        if bad:
+            break
+elif "rotate_dihedral" in label or "dihedral" in label:
     for t in range(20):
         m = chain()
         before = m.coords.copy()
